@@ -5,6 +5,12 @@
 (* by MCChainAdmission (case analysis: every chain x trusted pool is a state) and by ChainAdmissionLog (a log   *)
 (* serving requests one after the other while the clock advances).  The tables the harness materializes are    *)
 (* exported once per TLC run (OPTS, CERTS, TRUST).                                                             *)
+(* Key identifiers: a CA certificate carries the identifier of its key (ski = the key token), every certificate  *)
+(* that is not self-issued the identifier of its signer's key (aki) - unless it says otherwise below.  DECOYS are  *)
+(* self-signed CA certificates that share exactly one of (key and identifier, name) with a CA of the hierarchy:   *)
+(* the key under another name (R1n, I1n, I2n, Pn) or the name with another key (R1k, I1k).  A decoy in the trusted *)
+(* pool is found by the candidate lookup and does not link; the decoy pools (TSets) pair them with a root under     *)
+(* which the submitted chain is in order, so that the search has to go past the decoy.                            *)
 EXTENDS ChainAdmission, Integers, Json, TLC
 
 CONSTANT Depth     \* number of stacked perturbations: 1 or 2
@@ -13,9 +19,11 @@ CONSTANT Depth     \* number of stacked perturbations: 1 or 2
 \* instants: end-entity certificates expire at 4, CA certificates at 5; bounds and "now" are placed around them
 CAcert(id, subj, issuer, key, signer) ==
   [id |-> id, parses |-> TRUE, subj |-> subj, issuer |-> issuer, key |-> key, signer |-> signer, isCA |-> TRUE,
+   ski |-> key, aki |-> IF subj = issuer THEN "none" ELSE signer,
    ekus |-> {}, poison |-> "none", notAfter |-> 5, exts |-> {}]
 EE(id, issuer, signer, ekus, poison, exts) ==
   [id |-> id, parses |-> TRUE, subj |-> id, issuer |-> issuer, key |-> "k" \o id, signer |-> signer, isCA |-> FALSE,
+   ski |-> "none", aki |-> signer,
    ekus |-> ekus, poison |-> poison, notAfter |-> 4, exts |-> exts]
 
 Genuine == {
@@ -29,6 +37,13 @@ Genuine == {
   CAcert("I2",  "I2", "I1", "kI2", "kI1"),                 \* second-level intermediate
   [CAcert("P",  "P",  "I1", "kP",  "kI1") EXCEPT !.ekus = {"ct"}],   \* precertificate signing certificate
   CAcert("U",   "U",  "U",  "kU",  "kU"),                  \* unrelated self-signed CA
+  CAcert("I1n", "I1n", "I1n", "kI1", "kI1"),               \* decoys: I1's key (and key identifier) under another name,
+  CAcert("I2n", "I2n", "I2n", "kI2", "kI2"),               \*   I2's,
+  CAcert("Pn",  "Pn",  "Pn",  "kP",  "kP"),                \*   the pre-issuer's;
+  CAcert("R1k", "R1", "R1", "kR1k", "kR1k"),               \*   R1's name with another key,
+  CAcert("I1k", "I1", "I1", "kI1k", "kI1k"),               \*   I1's name with another key
+  [CAcert("I1a", "I1", "R1", "kI1", "kR1") EXCEPT !.aki = "none"],   \* I1 as issued without an authority key identifier
+  [EE("L1a", "I1", "kI1", {}, "none", {}) EXCEPT !.aki = "none"],    \* a leaf without one: its issuer is found by name
   EE("L2",  "I2", "kI2", {"server"}, "none", {}),
   EE("L1",  "I1", "kI1", {}, "none", {}),                  \* no EKU extension
   EE("LE",  "I2", "kI2", {"email", "client"}, "none", {}),
@@ -42,14 +57,15 @@ Genuine == {
   EE("LWT", "I2", "kI2", {"server"}, "wrongTag", {}),
   EE("LLF", "I2", "kI2", {"server"}, "longFormNull", {}),
   EE("LEV", "I2", "kI2", {"server"}, "empty", {}),
-  [EE("LCA", "I1", "kI1", {}, "none", {}) EXCEPT !.isCA = TRUE],     \* a CA certificate submitted as leaf
-  EE("LL",  "L1", "kL1", {"server"}, "none", {})           \* signed with the key of L1, which is not a CA
+  [EE("LCA", "I1", "kI1", {}, "none", {}) EXCEPT !.isCA = TRUE, !.ski = "kLCA"],     \* a CA certificate submitted as leaf
+  [EE("LL",  "L1", "kL1", {"server"}, "none", {}) EXCEPT !.aki = "none"]   \* signed with the key of L1, which is not a CA (and has no key identifier)
 }
 \* same fields, signature verifies under no key
 Twin(c) == [c EXCEPT !.id = c.id \o "~f", !.signer = "bad"]
 \* bytes that do not decode
 Bad == [id |-> "BAD", parses |-> FALSE, subj |-> "", issuer |-> "", key |-> "", signer |-> "", isCA |-> FALSE,
-        ekus |-> {}, poison |-> "none", notAfter |-> 0, exts |-> {}]
+        ski |-> "none", aki |-> "none", ekus |-> {}, poison |-> "none", notAfter |-> 0, exts |-> {}]
+ASSUME KeyIdsAgree(Genuine)
 AllCerts == Genuine \cup {Twin(c) : c \in Genuine} \cup {Bad}
 GenuineIds == {c.id : c \in Genuine}
 CertIds == {c.id : c \in AllCerts}
@@ -57,10 +73,19 @@ Cert == [i \in CertIds |-> CHOOSE c \in AllCerts : c.id = i]
 Recs(s) == [i \in 1..Len(s) |-> Cert[s[i]]]
 Ids(p) == [i \in 1..Len(p) |-> p[i].id]
 
-\* which certificates a log trusts (TI: also an intermediate; TB, T1B: the re-issued root; TN: the renamed root only)
+\* which certificates a log trusts (TI: also an intermediate; TB, T1B: the re-issued root; TN: the renamed root only).
+\* Decoy pools: a root under which chains are in order next to decoys that the candidate lookup finds first -
+\*   TD1: under R1, the keys of I1, I2 and P under other names (every certificate below R1 hits one by identifier)
+\*   TD2: under R2, R1's key under another name (hit by identifier from I1; the path goes on through the submitted R1x)
+\*   TD3: under R2, R1's and I1's names with other keys (hit by name: no identifier matches in the pool)
+\*   TD4: under R2, all of them
 TSets == [T1 |-> {"R1"}, T2 |-> {"R2"}, T12 |-> {"R1", "R2"}, TI |-> {"R1", "I1"}, TB |-> {"R1b"}, T1B |-> {"R1", "R1b"},
-          TN |-> {"R1n"}]
+          TN |-> {"R1n"},
+          TD1 |-> {"R1", "I1n", "I2n", "Pn"}, TD2 |-> {"R2", "R1n"}, TD3 |-> {"R2", "R1k", "I1k"},
+          TD4 |-> {"R2", "R1n", "R1k", "I1n", "I1k", "I2n"}]
 TNames == DOMAIN TSets
+DecoyPools == {"TD1", "TD2", "TD3", "TD4"}
+PlainPools == TNames \ DecoyPools
 TRecs(n) == {Cert[i] : i \in TSets[n]}
 
 (* ---------- chains ---------- *)
@@ -68,6 +93,8 @@ Bases == {
   <<"L2", "I2", "I1">>, <<"L2", "I2", "I1", "R1">>, <<"L2", "I2", "I1x">>, <<"L2", "I2", "I1x", "R2">>,
   <<"L2", "I2", "I1", "R1b">>,
   <<"L1", "I1">>, <<"L1", "I1", "R1">>, <<"L1", "I1x", "R2">>, <<"L1", "I1", "R1x", "R2">>, <<"L1", "I1", "R1", "R1x", "R2">>,
+  <<"L2", "I2", "I1", "R1x">>, <<"LP", "P", "I1", "R1x", "R2">>,
+  <<"L1a", "I1">>, <<"L1", "I1a", "R1">>, <<"L1a", "I1a", "R1x">>,
   <<"LP", "P", "I1">>, <<"LP", "P", "I1", "R1">>, <<"LP", "P", "I1x", "R2">>,
   <<"LQ", "I2", "I1">>, <<"LQ", "I2", "I1", "R1">>,
   <<"LCA", "I1">>, <<"LCA", "I1", "R1">>,
@@ -100,8 +127,12 @@ P0 == {[tags |-> <<>>, ch |-> b] : b \in Bases \cup PlainBases}
 P1 == UNION {{[tags |-> <<q.tag>>, ch |-> q.ch] : q \in Perturb(b)} : b \in Bases}
 Ch01 == {p.ch : p \in P0 \cup P1}
 Ch2 == IF Depth >= 2 THEN UNION {{q.ch : q \in Perturb(c)} : c \in {p.ch : p \in P1}} \ Ch01 ELSE {}
-Cases == {[ch |-> p.ch, tags |-> p.tags, T |-> t] : p \in P0 \cup P1, t \in TNames}
-         \cup {[ch |-> c, tags |-> <<"two">>, T |-> t] : c \in Ch2, t \in TNames}
+\* every chain x every plain pool; the decoy pools with the chains as submitted and the perturbations that keep the
+\* length or shorten (Depth 2: all single perturbations)
+DecoyTags == IF Depth >= 2 THEN {"drop", "swap", "dup", "insert", "forge", "garble"} ELSE {"drop", "swap", "forge"}
+Cases == {[ch |-> p.ch, tags |-> p.tags, T |-> t] : p \in P0 \cup P1, t \in PlainPools}
+         \cup {[ch |-> p.ch, tags |-> p.tags, T |-> t] : p \in P0 \cup {q \in P1 : q.tags[1] \in DecoyTags}, t \in DecoyPools}
+         \cup {[ch |-> c, tags |-> <<"two">>, T |-> t] : c \in Ch2, t \in PlainPools}
 
 (* ---------- the option table ---------- *)
 N == NoBound
